@@ -84,6 +84,34 @@ func runC20(c *Ctx) {
 	if len(setups) == 0 {
 		r.Violation("C20.1", "setup-call", c.U.Pos(cfg.Pos()), "configure never sets up a watcher")
 	}
+	// the previous watcher and its goroutine go away whatever the new options say: switching
+	// auto-refresh OFF must stop them too
+	okAlways := len(stops) > 0
+	for _, ret := range ir.NormalReturns(cfg) {
+		if !ir.MustPassBefore(cfg, ret, isStop) {
+			okAlways = false
+		}
+	}
+	r.Check("C20.1", "stop-on-every-reconfiguration", okAlways, c.U.Pos(cfg.Pos()), "every path through configure passes watch.stop (also the one that leaves auto-refresh switched off): no watcher, descriptor or goroutine of the previous configuration survives")
+	// a directory list given as an option always replaces the old one, also when it is empty
+	if ws := c.U.Func("cdi", "WithSpecDirs"); ws != nil && len(ws.AnonFuncs) == 1 {
+		opt := ws.AnonFuncs[0]
+		isSet := func(in ssa.Instruction) bool {
+			st, ok := in.(*ssa.Store)
+			if !ok {
+				return false
+			}
+			fa, ok := st.Addr.(*ssa.FieldAddr)
+			return ok && len(opt.Params) > 0 && fa.X == ssa.Value(opt.Params[0]) && ir.StructOf(fa.X.Type()).Field(fa.Field).Name() == "specDirs"
+		}
+		okSet := true
+		for _, ret := range ir.NormalReturns(opt) {
+			if !ir.MustPassBefore(opt, ret, isSet) {
+				okSet = false
+			}
+		}
+		r.Check("C20.5", "specdirs-always-replaced", okSet, c.U.Pos(opt.Pos()), "the WithSpecDirs option assigns c.specDirs on every path (an empty list empties it): a reconfigured cache has the directories of its last options, like a new one")
+	}
 	// all of them act on c.watch
 	for _, s := range append(append(append([]ssa.CallInstruction{}, stops...), setups...), starts...) {
 		d := normExpr(cfg, []string{c.exprDesc(s.Common().Args[0])})[0]
@@ -198,6 +226,7 @@ func runC20(c *Ctx) {
 				exits++
 			}
 		})
+		watchExitsOnlyWhenClosed(c, ws, "C20.3", "exit-only-when-closed")
 		r.Check("C20.3", "closed-channel-exit", exits >= 1, c.U.Pos(fn.Pos()), fmt.Sprintf("%d of the select's receive branches return when the channel is closed (at least one is needed for the goroutine to end after Close)", exits))
 		// channels come from the watcher parameter
 		okCh := len(ws.sel.States) >= 1
@@ -649,4 +678,30 @@ func keysOf(m map[string]bool) []string {
 	}
 	sort.Strings(out)
 	return out
+}
+
+// watchExitsOnlyWhenClosed: once the watcher goroutine is in its select loop, the only way
+// out is a receive that found its channel closed (stop() closed the watcher). An error
+// delivered on the Errors channel, an odd event, a failed refresh must not end it: the cache
+// would keep auto-refresh switched on with nobody listening.
+func watchExitsOnlyWhenClosed(c *Ctx, ws *watchShape, rule, key string) {
+	fn := ws.fn
+	var closed []ir.Edge
+	for _, iff := range ir.Ifs(fn) {
+		if ex, ok := iff.Cond.(*ssa.Extract); ok && ex.Tuple == ssa.Value(ws.sel) && ex.Index == 1 {
+			closed = append(closed, ir.Edge{From: iff.Block(), Succ: 1})
+		}
+	}
+	bad := ""
+	n := 0
+	for _, ret := range ir.NormalReturns(fn) {
+		if !ir.Dominates(ws.sel.Block(), ret.Block()) {
+			continue
+		}
+		n++
+		if len(closed) == 0 || !ir.OnlyViaEdges(fn, ret, closed) {
+			bad += " " + c.pos(ret)
+		}
+	}
+	c.R.Check(rule, key, bad == "", c.U.Pos(fn.Pos()), fmt.Sprintf("every return of the watcher goroutine inside its select loop (%d) is reached only after a receive reported its channel closed (returns reachable otherwise:%s)", n, bad))
 }
